@@ -7,6 +7,8 @@ na = json.load(open(os.path.join(V, 'not_applicable.json')))
 checks = []
 for pid in sorted(props):
     c = props[pid]
+    if not c.get('enabled', True):
+        continue
     checks.append({
         'property_id': pid,
         'quick_cmd': './check %s --tier quick' % pid,
@@ -18,12 +20,15 @@ for pid in sorted(props):
         'level_note': c['level_note'],
         'technique': c.get('technique', 'contract-based deductive verification (Verus) of the real functions, contracts spliced mechanically'),
     })
-claimed = set(props)
+claimed = set(k for k in props if props[k].get('enabled', True))
+for k in sorted(props):
+    if k not in claimed:
+        na = [x for x in na if x['property_id'] != k] + [{'property_id': k, 'reason': 'check built but not yet enabled in this commit (integration in progress; see DESIGN.md)'}]
 m = {
     'version': 1,
     'setup_cmd': './setup.sh',
     'hooks': {'guard': 'dryoc_verif', 'enable': 'none needed: contracts are spliced into a scratch copy of /repo/src on every run (tools/annotate.py); no source hooks exist', 'baseline_off_cmd': 'cd /repo && cargo test --workspace --no-fail-fast --offline', 'source_commits': [], 'add_only': True},
-    'engines': [{'name': 'verus-inplace', 'path': 'tools/check.py', 'serves_properties': sorted(props), 'kind_free_text': 'Verus 0.2026.09.13 run as rustc driver on a scratch copy of the real crate with sidecar contracts (contracts/*.vc, spec/*.rs) spliced by tools/annotate.py; replay/ = directed witness search on the real crate after a failed obligation'}],
+    'engines': [{'name': 'verus-inplace', 'path': 'tools/check.py', 'serves_properties': sorted(claimed), 'kind_free_text': 'Verus 0.2026.09.13 run as rustc driver on a scratch copy of the real crate with sidecar contracts (contracts/*.vc, spec/*.rs) spliced by tools/annotate.py; replay/ = directed witness search on the real crate after a failed obligation'}],
     'checks': checks,
     'not_applicable': [x for x in na if x['property_id'] not in claimed],
     'notes': 'exit 0 held / exit 1 VIOLATION / exit 2 undecided (tool limit, lost anchor; never an alarm). See DESIGN.md.',
